@@ -36,6 +36,14 @@ theorem regroup_tabulate {S β : Type} [Inhabited S] (runner : (Sensor × S → 
   simp only [flatMap_cons, flatMap_nil, append_nil, map_cons, map_nil] at this
   rw [this]; rfl
 
+/-- the hypotheses are satisfiable: a 2-frequency sensor, three snowpacks, results with one `theta` cell -/
+example : ∃ (s : Sensor) (ds : List Dim) (sd : Dim) (sps : List String) (f : Sensor × String → Res String),
+    Compat s ds ∧ sd.vals.length = sps.length ∧ NonEmpty (ds ++ [sd]) ∧ NamesOk (ds ++ [sd]) ["theta"] ∧
+    Uniform (ds ++ [sd]) ["theta"] [["t"]] (simAt f s ds sps) ∧ sensorConfigurations ["theta"] s = ds :=
+  ⟨[("frequency", ["a", "b"]), ("theta", ["t"])], [⟨"frequency", ["a", "b"]⟩], ⟨"snowpack", ["0", "1", "2"]⟩, ["x", "y", "z"],
+   fun p => ⟨["theta"], [(["t"], p.2)]⟩, by unfold Compat; decide, rfl, by unfold NonEmpty; decide, by unfold NamesOk; decide,
+   fun _ _ => ⟨rfl, rfl⟩, by decide⟩
+
 /-- the same in terms of cells: `(k, v)` is a cell of the batch result **iff** `k` is the coordinate tuple of some
     simulation followed by a key of that simulation's own result, and `v` is the value there.  Nothing is lost, nothing
     is added, nothing is misplaced. -/
@@ -148,7 +156,7 @@ theorem container_refusals {S : Type} (sps : List S) (col : String) :
     workers) and putting each result back at its position is an order-preserving runner … -/
 theorem runner_order {A B : Type} (π : List Nat) (f : A → B) (args : List A) (hπ : π.Perm (List.range args.length)) :
     scheduledRunner π f args = sequentialRunner f args :=
-  scheduledRunner_eq π f args (fun i hi => hπ.mem_iff.mpr (mem_range.mpr hi))
+  scheduledRunner_eq π f args (fun _ hi => hπ.mem_iff.mpr (mem_range.mpr hi))
 
 example : (List.range 3).reverse.Perm (List.range 3) := List.reverse_perm _
 
@@ -214,7 +222,7 @@ theorem history_independent {V : Type} (g : String → String → V) (one fill :
     st0 st0 hc0 hc0 (fun _ _ => rfl)
   rw [h.1, map_map]; rfl
 
-/-- the full statement about smrt **as it is**: no simulation writes into the caller's objects -/
+/-- the full statement about smrt **as it was before the `fix:` commits b1c217a / c98a363**: no simulation writes into the caller's objects -/
 def inputs_untouched_full : Prop :=
   ∀ (i : Nat) (sh : Shape) (st : Store String),
     (simulation "1" .code i sh "set" (fun _ _ => "result")).userWritten (fun _ _ => "memo") st = []
@@ -227,9 +235,8 @@ theorem reflector_default_written : ¬ inputs_untouched_full := by
   revert this
   decide +kernel
 
-/-- what holds for the code as it is: the caller's locations written are at most `substrate.specular_reflection` -/
-theorem inputs_untouched_partial {V : Type} (g : String → String → V) (one fill : V) (i : Nat) (sh : Shape)
-    (solve : List (Option V) → List V → V) :
+/-- what held for the code before those repairs: the caller's locations written are at most `substrate.specular_reflection` -/
+theorem inputs_untouched_partial {V : Type} (one : V) (sh : Shape) :
     ∀ w ∈ sh.userWrites one .code, w.1 = ⟨.user "substrate", "specular_reflection"⟩ ∧ w.2 = one := by
   intro w hw
   simp only [Shape.userWrites] at hw
